@@ -86,6 +86,8 @@ def forge_handshake(sim, r, codec, i):
         txt = "hsack %d" % na; dr = "c2s"
     else:
         na = r.pick([rnd] + [((s + 1) & U32) for s in syn[-1:]])
+        if syn and any(tag == "C" for (_, tag, _) in sim.cevents.get(i, [])) and r.chance(1, 2):
+            na = syn[0]        # a stale / forged error frame carrying the client's OWN nonce, after the client has connected
         txt = "hserr %d %d" % (na, r.below(3)); dr = "s2c"
     hx = codec.op("enc " + txt)
     if len(hx) > 8:
